@@ -813,3 +813,49 @@ Proof.
   - induction fromV' as [|? ? IH']; simpl; auto.
   - apply IH.
 Qed.
+
+(** * Declaration order (M-SORT): DetachCycles maps a permuted change set to a permuted result *)
+
+Lemma detachReferences_perm cs cs' :
+  Permutation cs cs' -> Permutation (detachReferences cs) (detachReferences cs').
+Proof. intros P. unfold detachReferences. apply Permutation_app; apply flat_map_perm, P. Qed.
+
+Lemma sm_insert_by_perm key c l : Permutation (SortModel.insert_by key c l) (c :: l).
+Proof.
+  induction l as [|x r IH]; simpl; [apply Permutation_refl|].
+  destruct (key c <? key x); [apply Permutation_refl|].
+  eapply Permutation_trans; [apply perm_skip; exact IH|apply perm_swap].
+Qed.
+
+Lemma sort_by_perm key l : Permutation (sort_by key l) l.
+Proof.
+  unfold sort_by. change l with ([] ++ l) at 2. generalize (@nil change).
+  induction l as [|c l IH]; intros acc; simpl; [rewrite app_nil_r; apply Permutation_refl|].
+  eapply Permutation_trans; [apply IH|].
+  eapply Permutation_trans; [apply Permutation_app_tail, sm_insert_by_perm|]. simpl. apply Permutation_middle.
+Qed.
+
+Lemma partition_changes_perm cs : Permutation (partition_changes cs) cs.
+Proof.
+  unfold partition_changes. induction cs as [|c cs IH]; simpl; [constructor|].
+  destruct (is_drop c); simpl.
+  - eapply Permutation_trans; [apply Permutation_sym, Permutation_middle|]. apply perm_skip, IH.
+  - apply perm_skip, IH.
+Qed.
+
+(* PARTIAL (see Props_C20.v): the premise says that both orders agree on whether the FK graph has a
+   cycle (sortMap's DFS is not proved to be order-independent here) *)
+Theorem DetachCycles_decl_order cs cs' p p' :
+  Permutation cs cs' ->
+  (sortMap cs = SMCycle <-> sortMap cs' = SMCycle) ->
+  DetachCycles cs = DCOk p -> DetachCycles cs' = DCOk p' -> Permutation p p'.
+Proof.
+  intros P [C1 C2]. unfold DetachCycles.
+  destruct (sortMap cs) as [| |s] eqn:E, (sortMap cs') as [| |s'] eqn:E'; intros H H'; try discriminate;
+    inversion H; inversion H'; subst.
+  - apply detachReferences_perm, P.
+  - specialize (C1 eq_refl). discriminate.
+  - specialize (C2 eq_refl). discriminate.
+  - eapply Permutation_trans; [apply sort_by_perm|].
+    eapply Permutation_trans; [exact P|apply Permutation_sym, sort_by_perm].
+Qed.
